@@ -339,7 +339,7 @@ impl Monitor for FeeTokenMonitor {
         let (tfa, tfb) = (pl.mint_a.transfer_fee, pl.mint_b.transfer_fee);
         let (ua, ub) = (h.w.user_token_existing(u, &pl.mint_a.key), h.w.user_token_existing(u, &pl.mint_b.key));
         let name = op_name(op);
-        if !matches!(op, Op::Swap { .. } | Op::SwapBack { .. } | Op::Increase { .. } | Op::Decrease { .. } | Op::Reposition { .. } | Op::CollectFees { .. } | Op::CollectProtocolFees { .. }) {
+        if !matches!(op, Op::Swap { .. } | Op::SwapBack { .. } | Op::SwapExact { .. } | Op::Increase { .. } | Op::Decrease { .. } | Op::Reposition { .. } | Op::CollectFees { .. } | Op::CollectProtocolFees { .. }) {
             return Ok(());
         }
         let fa = self.reconcile(&format!("{name} token A"), tfa, &ua, &pl.vault_a, &pl.mint_a.key, h, pre, post)?;
@@ -347,7 +347,7 @@ impl Monitor for FeeTokenMonitor {
         let o = r.outcome.as_ref().unwrap();
         let (pl_lo, pl_hi) = r.pos.map(|p| (h.w.positions[p].lower, h.w.positions[p].upper)).unwrap_or((0, 0));
         match op {
-            Op::Swap { .. } | Op::SwapBack { .. } => {
+            Op::Swap { .. } | Op::SwapBack { .. } | Op::SwapExact { .. } => {
                 let sp = r.swap.as_ref().unwrap();
                 let total_in: u64 = o.steps.iter().map(|s| s.amount_in + s.fee_amount).sum();
                 let total_out: u64 = o.steps.iter().map(|s| s.amount_out).sum();
